@@ -198,12 +198,12 @@ def worker(job):
                                                   preexec_fn=common.drop_to(uid) if uid else None)
                 if to:
                     # a wall-clock watchdog on a loaded machine is not a verdict: the walk has no side effects, so it is run again
-                    # with a five-minute watchdog; only a second expiry is reported as a hang
+                    # with a fifteen-minute watchdog; only a second expiry is reported as a hang
                     st.inc("watchdog_expiries_rerun")
-                    rc, out, err, to = common.run_cmd([common.FIND] + c[5][1:], cwd=sb, env=common.clean_env(), timeout=300,
+                    rc, out, err, to = common.run_cmd([common.FIND] + c[5][1:], cwd=sb, env=common.clean_env(), timeout=900,
                                                       preexec_fn=common.drop_to(uid) if uid else None)
                     if to:
-                        st.violate("hang", None, {"args": c[5], "watchdog": "60 s, then 300 s"}, {"args": c[5], "tree": [n.to_json() for n in nodes]})
+                        st.violate("hang", None, {"args": c[5], "watchdog": "60 s, then 900 s"}, {"args": c[5], "tree": [n.to_json() for n in nodes]})
                         continue
                 st.inc("binary_runs")
                 judge(st, c, sb, rc, out, err, ("exit %d" % rc) if rc in (101, 134, -6, -11) else None, "binary", deny)
